@@ -199,6 +199,10 @@ OuterLoop:
 					return "", errors.New("invalid format string")
 				}
 			}
+			if i == len(format) {
+				// The format string ended in the middle of a directive
+				return "", fmt.Errorf("invalid conversion '%s' to 'format'", format[start-1:])
+			}
 			args[j] = arg
 			j++
 		}
